@@ -71,6 +71,12 @@ def is_int(t):
     return t[0] == "int"
 
 
+def LEN(x):
+    while x[0] in ("deref", "w"):
+        x = x[1]
+    return ("len", x)
+
+
 def ty_bits(ty):
     """(bits, signed) of a type json, or None."""
     if ty == "bool":
@@ -494,6 +500,14 @@ def show(t, depth=0):
         return "&%s" % (show_loc(t[1]),)
     if k == "discr":
         return "discr(%s)" % show(t[1], depth + 1)
+    if len(t) == 1 and isinstance(k, str):
+        return k
+    if k in ("len", "deref", "addr") and len(t) >= 2 and isinstance(t[1], tuple):
+        return "%s(%s)" % (k, show(t[1], depth + 1))
+    if k in ("reg", "mem") and len(t) >= 3:
+        return "%s%s(%s)" % (k, t[1], show(t[2], depth + 1) if isinstance(t[2], tuple) else t[2])
+    if k in ("opreg", "opmem", "opimm"):
+        return "%s%s" % (k, t[1])
     return str(t)[:80]
 
 
@@ -516,6 +530,7 @@ class Interp:
         self.result_fail_paths = result_fail_paths
         self._from_cache = {}
         self._loops = {}
+        self.cmp_oracle = None
 
     # ------------------------------------------------------------ loops (A2)
     def loops_of(self, body):
@@ -806,7 +821,7 @@ class Interp:
                     return INT(-a[1], bits)
                 return ("un", "Neg", a, bits)
             if rv[1] == "PtrMetadata":
-                return ("len", a)
+                return LEN(a)
             return ("un", rv[1], a, bits)
         if k == "cast":
             a = self.eval_operand(path, frame, rv[2])
@@ -921,6 +936,10 @@ class Interp:
             if r is not None:
                 return r[1]
             return None
+        if self.cmp_oracle is not None and t[0] == "bin" and t[1] in CMP_OPS:
+            r = self.cmp_oracle(path, t[1], t[2], t[3])
+            if r is not None:
+                return r
         if t[0] in ("bin", "un", "cast", "w"):
             bv = bitvec(t, path)
             return bv_value(bv)
@@ -1111,7 +1130,8 @@ class Interp:
                     return
                 ops = {kk: self.eval_operand(path, frame, vv) for kk, vv in msg.items() if kk in ("a", "b", "len", "index")}
                 path.events.append(("assert", msg["kind"], msg.get("op"), ops, F.site_str(body, t["sp"]),
-                                    body["path"], c))
+                                    body["path"], c, len(path.conds),
+                                    "/".join(F.macro_names(body, t["sp"]))))
                 self.assume_cond(path, c, exp)
                 bb = t["t"]
                 continue
@@ -1201,6 +1221,8 @@ class Interp:
                     if a[1][0][0] in ("H", "D"):
                         path.events.append(("mutcall", name, a[1], nargs, F.site_str(frame.body, t["sp"])))
                     self.havoc(path, a[1], name)
+                elif a[0] == "ref" and a[1][0][0] in ("H", "D") and a[1][1]:
+                    path.events.append(("refcall", name, a[1], nargs, F.site_str(frame.body, t["sp"])))
         val = ("ret", name, nargs, path.ver if any(self.touches_heap(a) for a in args) else 0)
         dty = self.place_ty(frame, t["dest"])
         tb = ty_bits(dty) if dty is not None else None
@@ -1350,6 +1372,13 @@ class Interp:
             if is_int(a) and is_int(b):
                 return self._multi(path, frame, t, [(a if a[1] <= b[1] else b, path)], depth)
             return self._multi(path, frame, t, [(("ret", "min", (a, b), 0), path)], depth)
+        if name.endswith("::len") and len(args) == 1 and ("Vec" in name or "slice" in name or "<impl [T]>" in name):
+            v = args[0]
+            if v[0] == "ref":
+                inner = self.read_loc(path, v[1])
+                return self._multi(path, frame, t, [(W(LEN(inner), 64), path)], depth)
+            if v[0] != "ref":
+                return self._multi(path, frame, t, [(W(LEN(v), 64), path)], depth)
         # --- PartialEq on references
         if name.endswith("::eq") or name.endswith("::ne"):
             if len(args) == 2:
